@@ -1089,6 +1089,9 @@ class Grammar(PGFile):
                         rf"\b{re.escape(match)}\b",
                         ignore_case=term.recognizer.ignore_case,
                     )
+                    # The keyword's own text (the regex is longer by the
+                    # escapes), used to order the scanning of terminals.
+                    term.recognizer.keyword_value = match
                     term.keyword = True
 
     def _resolve_actions(self, action_overrides=None, fail_on_no_resolve=False):
